@@ -108,6 +108,13 @@ def check_world(prop, tier, seed, replay=None):
     proj = vlib.PROJECTIONS[prop]
     violations = []
     notes = []
+    # 0. translator tie: regenerate Gen/Cxx from the current source, re-check the tie theorems of this property
+    tie = dict(modules=[], obligations=0, discharged=0, theorems=[], broken=[], index=[])
+    if not replay:
+        tie = vlib.tie_check(prop)
+        for mod, what in tie['broken']:
+            path = vlib.write_replay(prop, tier, seed, 'tie-%s' % mod, ['verdict tie-broken', 'broken ' + what.split('\n')[0]], what.split('\n'))
+            violations.append((path, True))
     # 1. proofs
     try:
         tmodel = vlib.build_lean(prop)
@@ -279,12 +286,21 @@ def check_world(prop, tier, seed, replay=None):
 
     # 7. evidence
     wall = time.time() - t0
+    # a broken tie for which a concrete failing input was found is reported with that input only
+    if any(not nf for _, nf in violations):
+        for pth, nf in violations:
+            if nf:
+                notes.append('tie broken (%s) — a failing input was found, see the other replays' % os.path.basename(pth))
+        violations = [(pth, nf) for pth, nf in violations if not nf]
     cov = dict(
-        obligations=audit['obligations'], discharged=audit['discharged'],
-        checker_cmd='cd lean && lake build && lake env lean .lake/audit_%s.lean  (#print axioms of every theorem of Props/%s.lean)%s'
+        obligations=audit['obligations'] + tie['obligations'], discharged=audit['discharged'] + tie['discharged'],
+        checker_cmd='python3 tools/cxx2lean.py && cd lean && lake build && lake env lean .lake/audit_%s.lean  (#print axioms of every theorem of '
+                    'Props/%s.lean and of the tie theorems)%s'
                     % (prop, prop, '; lake env leanchecker TrompModel.Props.%s' % prop if tier == 'thorough' else ''),
-        trusted_base=TRUSTED_BASE,
-        theorems=[dict(name=n, axioms=a) for n, a in audit['theorems']],
+        trusted_base=TRUSTED_BASE + (['translator tools/cxx2lean.py + vocabulary tools/cxxvocab.py (C++ subset -> Lean do-blocks), for: '
+                                      + '; '.join(tie['index'])] if tie['modules'] else []),
+        theorems=[dict(name=n, axioms=a) for n, a in audit['theorems'] + tie['theorems']],
+        translated_functions=tie['index'],
         programs=len(scripts), traces_validated_against_impl=len(scripts) - len(failing) - gen_errors,
         disagreements_checked=len(failing),
         evaluations=nops, distinct_nontrivial=len(nontrivial),
@@ -492,17 +508,7 @@ def check_c18(tier, seed, replay):
         extra_trusted=['libstdc++ formatted output of int / string under dec, left, fill space, width 0; `pad` for string literals'])
 
 
-def lean_workdir():
-    """the Lean project the translator writes into: /verif/lean itself, or a scratch copy when the check is
-    run against a seeded variant of the tree (VERIF_OUT set) so that the real project is not touched."""
-    out = os.environ.get('VERIF_OUT')
-    if not out:
-        return vlib.LEAN_DIR
-    import shutil
-    dst = os.path.join(out, 'lean')
-    if not os.path.exists(dst):
-        shutil.copytree(vlib.LEAN_DIR, dst, ignore=shutil.ignore_patterns('.lake'))
-    return dst
+lean_workdir = vlib.lean_workdir
 
 
 def check_translated(prop, tier, seed, replay):
